@@ -22,7 +22,8 @@ ASSUMPTIONS = ["<= 6 inputs, <= 14 gates", "for circuits with gates of more than
 def gen(rng, tier):
     wide = rng.random() < 0.2
     shape = rng.choice(("tree", "reconv", "reconv", "multi"))
-    net = G.gen_net(rng, n_inputs=(2, 6) if shape != "reconv" else (1, 3), n_gates=(2, 12),
+    big = tier == "thorough" and rng.random() < 0.3
+    net = G.gen_net(rng, n_inputs=(2, 6) if shape != "reconv" else (1, 3), n_gates=(10, 20) if big else (2, 12),
                     types=[t for t in G.swarm_types(rng)] or ["and"], max_arity=rng.randint(3, 5) if wide else 2,
                     constants=rng.choice((0.0, 0.0, 0.3)), name_style="plain", input_outputs=rng.choice((0.0, 0.0, 0.1)),
                     min_outputs=1 if shape != "multi" else rng.randint(2, 3), all_sinks_outputs=True)
